@@ -58,6 +58,8 @@ func snapOf(obs []dml.TabSnap, name string) dml.TabSnap {
 	return dml.TabSnap{}
 }
 
+const c08Churn = "SELECT k || 'p', w + 1, w * 1.5, 'q' || w FROM u; SELECT k || 'q', n + 1000, n * 2.5 FROM tmp; SELECT 'x' || 'y', 1 + 2, 2.5 * 2, DATETIME('2020-01-02 03:04:05');"
+
 func sameSnap(a, b dml.TabSnap) bool {
 	return strings.Join(a.Cols, ",") == strings.Join(b.Cols, ",") && drv.RowsKey(a.Rows) == drv.RowsKey(b.Rows)
 }
@@ -139,6 +141,9 @@ func (r *c08Runner) variant(path []dml.Op, st *dml.State, v *dml.Variant) {
 	c.Observe("failing_forms", v.Id)
 	nViol := c.NViolations()
 
+	// values the failed statement may have handed back to the pools are re-issued by the next evaluations: run
+	// some before looking (a cell that was recycled while a table still holds it is overwritten here)
+	sys.DoSQL(c08Churn)
 	// 1. every table as before (differential)
 	after, err := sys.ReadAll()
 	if err != nil {
@@ -419,6 +424,12 @@ func c08Run(c *core.Ctx) {
 }
 
 func c08Replay(c *core.Ctx, payload json.RawMessage) {
+	var cp c08CancelPayload
+	if json.Unmarshal(payload, &cp) == nil && cp.Family == "cancel" {
+		fmt.Printf("replaying %q with the cancellation visible from poll %d on\n", cp.SQL, cp.K)
+		c08CancelOne(c, core.Scratch("c08cancel"), cp.SQL, cp.K)
+		return
+	}
 	var p c08Payload
 	if err := json.Unmarshal(payload, &p); err != nil {
 		fmt.Println("bad payload:", err)
